@@ -445,32 +445,39 @@ PROPS["C12"] = dict(
 
 PROPS["C01"] = dict(
     modules=["common", "c01"],
-    contracts=["multipart.twins", "MultipartDecoder.last_newline", "parse_stream"],
+    contracts=["multipart.twins", "MultipartDecoder.last_newline", "MultipartDecoder.next_event[DATA]", "parse_stream"],
     no_refute=["multipart.twins"],
     refute={"quick": [2], "thorough": [1, 2]},
     native="c01",
     level="other",
     trusted=["A-py-1", "A-solver", "A-pyvc"],
-    level_text="Mostly BOUNDED, and said so: the heart of the property - the DATA branch never emits a byte of a delimiter that a later "
-               "chunk completes and never withholds one for ever - is a statement about Python's leftmost regex search over a "
-               "growing buffer with a symbolic boundary, which neither z3 nor cvc5 decides and which a hand-written induction "
-               "would turn into a model of the decoder. It is checked on the real decoder over enumerated contents (every "
-               "string up to length 3-4 over {CR, LF, '-', boundary byte, x}) x boundaries x every chunking up to 2-3 cuts, "
-               "through the event decoder, both stream helpers and both Request.form. PROVED beside it: parse_async_stream is "
+    level_text="Mixed. The end-to-end clause (decoded parts == encoded parts for every chunking) is a statement over whole "
+               "histories of receive_data / next_event calls and Python's leftmost regex search; it is BOUNDED: checked on the "
+               "real decoder over enumerated contents (every string up to length 3-4 over {CR, LF, '-', boundary byte, x}) x "
+               "boundaries x every chunking up to 2-3 cuts, through the event decoder, both stream helpers and both "
+               "Request.form. PROVED, per step and for every buffer content and boundary: next_event in the DATA state "
+               "(the streaming step) neither loses nor invents bytes - the old buffer is exactly emitted-data + (one delimiter "
+               "match, only when the part ends) + new buffer -, ends the part exactly when the delimiter search matched, "
+               "moves to EPILOGUE iff the delimiter carries the closing '--', leaves everything in place when it asks for "
+               "more data, and releases while the part goes on only bytes that no later input can turn into the start of a "
+               "delimiter: last_newline's hold-back point is such that no suffix starting before it is 'a line break "
+               "followed by break-free text' (the shape of every incomplete delimiter).  Also PROVED: parse_async_stream is "
                "parse_stream after await-erasure and the declared renamings (AST identity, also for Request.form and "
                "_parse_multipart of both interfaces), so chunking behaviour of the helpers is identical by construction; "
                "last_newline returns the earlier of the last CR and the last LF, or len(buffer); parse_stream's event loop "
                "produces one item per completed part, relative to the decoder's event contract.",
     level_note="Trusted: the decoder's event grammar as a ghost script (A-decoder-events); bytearray.rindex (A-bytes); re semantics; "
-               "SpooledTemporaryFile. The decoder exactness / chunking independence clause is bounded only.",
-    technique="bounded exhaustive enumeration on the real decoder (labelled), beside deductive lemmas: AST identity of the sync/async helpers, last_newline contract, helper event loop against the decoder's event contract",
-    explanation="bounded: decoder exactness and chunking independence (enumerated contents x chunkings); proved: helper twins are the "
-                "same program, last_newline, one item per part in parse_stream.",
+               "SpooledTemporaryFile. The regex search of the DATA step is a stub (A-re-search: a match is line-break '--' boundary tail; leftmost-ness is not "
+               "used); the PREAMBLE / PART / EPILOGUE steps, the header parser and the composition of steps into the "
+               "end-to-end clause are bounded only.",
+    technique="deductive verification of the decoder's streaming step (byte conservation, safe hold-back, state transition; SMT strings) and of the helper twins / event loop; bounded exhaustive enumeration on the real decoder for the end-to-end clause (labelled)",
+    explanation="proved: next_event[DATA] conservation and safe release, last_newline, helper twins are the same program, one item per "
+                "part in parse_stream; bounded: end-to-end exactness and chunking independence (enumerated contents x chunkings).",
 )
 
 PROPS["C15"] = dict(
     modules=["common", "c01"],
-    contracts=["parse_stream", "multipart.twins", "MultipartDecoder.last_newline"],
+    contracts=["parse_stream", "multipart.twins", "MultipartDecoder.last_newline", "MultipartDecoder.next_event[DATA]"],
     no_refute=["multipart.twins"],
     refute={"quick": [2], "thorough": [1, 2]},
     native="c15",
